@@ -112,12 +112,12 @@ def run_history(chk, uni, drv, rng, length, stats):
                 op = {"op": "attach", "p": p, "stage": run.nstages[p]}
             elif r < 0.61:
                 # not an operation of the model: a suspended instrumented generator is advanced one step
-                op = {"op": "resume"}
+                op = {"op": "resume", "how": rng.choice(["next", "next", "close", "drop"])}
                 out = run.step(op)
-                chk.dist("resume")
+                chk.dist("resume:" + op["how"])
                 if out != {"context_same": True}:
-                    chk.violation("oracle", "advancing a suspended instrumented generator changed the handler context "
-                                  "of the code that advanced it", {"probes": probe_sels, "history": hist + [op]})
+                    chk.violation("oracle", "advancing / closing / dropping a suspended instrumented generator changed the "
+                                  "handler context of the code that did it", {"probes": probe_sels, "history": hist + [op]})
                 continue
             elif r < 0.64:
                 # not an operation of the model: a call of OTHER functions left by an exception of a handler
